@@ -47,6 +47,36 @@ Proof.
 Qed.
 Print Assumptions compute_edits_correct.
 
+(* ---- sequences of calls (seed round 3) ----
+   C16 quantifies over PAIRS: the edit list has to be a function of (before, after).  For the model
+   this is trivial (it is a Gallina function), and the model of a process that answers a sequence of
+   requests, [compute_edits_seq], is that function mapped over the sequence: the result of a call does
+   not depend on the calls before or after it, and every call of every sequence has the property.
+   The implementation keeps state between calls if it wants to (buffers, pools, caches); that it is a
+   function of the pair all the same is what the correspondence checks: tools/props/c16.py evaluates
+   every case at least 8 times in one process -- forward order, reverse order, after "polluting" pairs
+   with a long common prefix, shuffled, twice in a row, from 8 goroutines at once -- and requires every
+   evaluation to equal the first one, which Check.C16Check.case_agrees compares with [compute_edits];
+   a deviation is replayed as the shortest sequence of pairs ([Check.C16Check.seq_agrees] names the
+   calls of that sequence whose observed result is not the model's). *)
+Theorem compute_edits_is_a_function : forall before after r1 r2,
+  compute_edits before after = r1 -> compute_edits before after = r2 -> r1 = r2.
+Proof. exact compute_edits_functional_proof. Qed.
+Print Assumptions compute_edits_is_a_function.
+
+Theorem compute_edits_history_independent : forall pre1 post1 pre2 post2 before after,
+  nth_error (compute_edits_seq (pre1 ++ (before, after) :: post1)) (length pre1) =
+  nth_error (compute_edits_seq (pre2 ++ (before, after) :: post2)) (length pre2).
+Proof. exact compute_edits_history_independent_proof. Qed.
+Print Assumptions compute_edits_history_independent.
+
+Theorem compute_edits_correct_in_every_call_order : forall calls : list (str * str),
+  Forall2 (fun p r => exists es, r = Ok es /\ lsp_apply es (fst p) = Some (snd p) /\
+                                 edits_ordered es = true /\ forallb (edit_in_doc (fst p)) es = true)
+          calls (compute_edits_seq calls).
+Proof. exact compute_edits_seq_correct_proof. Qed.
+Print Assumptions compute_edits_correct_in_every_call_order.
+
 (* the same at the level of lines, for any line type with a sound equality test: the operation
    list turns a into b and is ordered, disjoint and inside both line lists *)
 Theorem operations_sound_lines : forall (A : Type) (eqb : A -> A -> bool),
